@@ -89,8 +89,40 @@ def check(ctx):
         ppx.report(ctx, "C04", "conditional compilation keeps the wrong text", bad[0], bad[1])
     ppx.scenario_batch(ctx, "C04", 80 if q else 1500, "c04sc")
     caller_keys(ctx)
+    empty_groups(ctx)
     ppx.known_finding_replay(ctx, "C04", "D4-elsif-predefined", ppx.PC({"top.sv": D4_WITNESS}),
                              lambda rr: rr.ok and b"B" in (rr.text or b""))
+
+
+def empty_groups(ctx):
+    """branches without any text: an empty group is no different from another one, and no region becomes active through one"""
+    progs = [
+        ("`define A\n`ifdef A\nx1\n`else\n`endif\n`ifdef U\n`ifdef V\nq\n`else\n`endif\nleak_c\n`define LEAK 1\n`endif\n`ifdef LEAK\nwrong\n`else\nright\n`endif\n",
+         ["`define", "A", "x1", "right"]),
+        ("`ifdef U1\n`else\nx2\n`endif\n`ifdef U2\n`ifdef U3\n`else\ny\n`endif\nleak_d\n`define LEAK 1\n`undef KEEP\n`endif\n`ifdef LEAK\nwrong\n`else\nright\n`endif\n",
+         ["x2", "right"]),
+        ("`ifndef U1\n`endif\n`ifdef U2\n`ifndef U3\n`endif\nleak_e\n`endif\nz\n", ["z"]),
+        ("`define A\n`ifdef A\n`elsif B\n`else\n`endif\n`ifdef U\n`ifdef A\n`elsif B\n`else\n`endif\nleak_f `UNDEFINED_MACRO\n`endif\nz\n", ["`define", "A", "z"]),
+        ("`ifdef U\n`else\n`endif\n`ifdef U\n`else\n`endif\n`ifdef U\nno\n`ifdef U\n`else\n`endif\nleak_g\n`else\nyes\n`endif\n", ["yes"]),
+    ]
+    cases = [Case("eg%d" % i).add("file", hx("top.sv"), hx(t)).add("opt", "strip", 0).add("opt", "ignore", 0).add("want", "text").add("run", "preprocess", hx("top.sv"))
+             for i, (t, _) in enumerate(progs)]
+    impl = run_harness("api", cases, "c04eg")
+    bad = None
+    for c, (t, want) in zip(cases, progs):
+        lines = impl.get(c.id) or []
+        ctx.corr_cases += 1
+        tx = [l for l in lines if l.startswith("text ")]
+        if crashed(lines) or not tx:
+            bad = bad or (t, "no output: %s" % lines[:3]); continue
+        got = unhx(tx[0].split()[1]).decode("utf-8", "replace").split()
+        ctx.corr_nontrivial.add(sha(t))
+        if got != want:
+            bad = bad or (t, "surviving tokens %s, expected %s" % (got, want))
+    ctx.obl("search-oracle:chains with empty branches, alone and inside discarded regions", "oracle", bad is None, bad[1] if bad else "")
+    if bad:
+        rp = write_replay(ctx, "pp-" + sha(bad[0])[:8], {"property": "C04", "kind": "empty-groups", "files": {"top.sv": bad[0]}, "why": bad[1]})
+        ctx.viol.append(Violation("conditional compilation keeps the wrong text: " + bad[1], rp))
 
 
 def caller_keys(ctx):
